@@ -21,7 +21,8 @@ Section Solve.
   Lemma S_rows_length : length (t_rows T0) = m.
   Proof. apply (T0_rows_length minimize c A b Hvalid). Qed.
 
-  Lemma S_row k : (k < m)%nat -> nth k (t_rows T0) row0 = rnorm (nth k A [] ++ unit_vec m k, nth k b 0).
+  Lemma S_row k : (k < m)%nat ->
+    nth k (t_rows T0) row0 = rnorm (scaled_row (nth k A []) ++ unit_vec m k, nth k b 0 / row_scale (nth k A [])).
   Proof. apply (T0_row minimize c A b Hvalid). Qed.
 
   Lemma S_wf : tab_wf N T0.
@@ -37,7 +38,7 @@ Section Solve.
     get (fst (nth k (t_rows T0) row0)) (nth i basis0 0%nat) == if Nat.eqb k i then 1 else 0.
   Proof.
     intros Hi Hk. unfold basis0. rewrite seq_nth by exact Hi. rewrite S_row by exact Hk. rewrite get_rnorm. cbn [fst].
-    replace n with (length (nth k A [])) by (apply (valid_rows c A b Hvalid k Hk)).
+    replace n with (length (scaled_row (nth k A []))) by (rewrite scaled_row_length; apply (valid_rows c A b Hvalid k Hk)).
     rewrite get_app_r. rewrite get_unit_vec by exact Hi.
     rewrite Nat.eqb_sym. reflexivity.
   Qed.
@@ -72,7 +73,8 @@ Section Solve.
     split; [|exact Hobj]. split; [exact Hx|].
     pose proof (valid_len c A b Hvalid) as HlenA.
     apply Forall2_mv; [exact HlenA|]. intros k Hk. rewrite HlenA in Hk. specialize (Hrows k Hk).
-    pose proof (get_nonneg s k Hsn). lra.
+    (* row equilibration: the slack of row k is rescaled by row_scale > 0 *)
+    pose proof (Qmult_le_0_compat _ _ (Qlt_le_weak _ _ (row_scale_pos (nth k A []))) (get_nonneg s k Hsn)). lra.
   Qed.
 
   (* ... and every feasible point gives one *)
@@ -82,7 +84,7 @@ Section Solve.
     intros [Hyn Hyb].
     pose proof (valid_len c A b Hvalid) as HlenA.
     set (y' := firstn n (y ++ zeros n)).
-    set (s' := map (fun k => nth k b 0 - dot (nth k A []) y') (seq 0 m)).
+    set (s' := map (fun k => (nth k b 0 - dot (nth k A []) y') / row_scale (nth k A [])) (seq 0 m)).
     assert (Ly : length y' = n) by (apply pad_length; lia).
     assert (Hrow_eq : forall k, (k < m)%nat -> dot (nth k A []) y' == dot (nth k A []) y).
     { intros k Hk. apply dot_pad; [|lia]. rewrite (valid_rows c A b Hvalid k Hk). fold n. lia. }
@@ -90,10 +92,11 @@ Section Solve.
     - rewrite app_length, Ly. unfold s'. rewrite map_length, seq_length. reflexivity.
     - apply Forall_app. split; [apply pad_nonneg; exact Hyn|].
       apply Forall_forall. intros q Hq. unfold s' in Hq. apply in_map_iff in Hq. destruct Hq as [k [Hq Hk]].
-      apply in_seq in Hk. subst q. rewrite Hrow_eq by lia.
+      apply in_seq in Hk. subst q. apply div_nonneg; [|apply row_scale_pos]. rewrite Hrow_eq by lia.
       pose proof (Forall2_mv_nth A b y k Hyb) as H. rewrite HlenA in H. specialize (H ltac:(lia)). lra.
     - apply (T0_sat minimize c A b Hvalid); [exact Ly|]. split.
-      + intros k Hk. fold m in Hk. unfold s', get. rewrite nth_map_seq by exact Hk. simpl. ring.
+      + intros k Hk. fold m in Hk. unfold s', get. rewrite nth_map_seq by exact Hk. cbn [Nat.add].
+        pose proof (row_scale_pos (nth k A [])). field. lra.
       + apply dot_pad; [|lia]. unfold w. rewrite weights_length. fold n. lia.
   Qed.
 
